@@ -60,26 +60,31 @@ func parseSuper(blob []byte) (magic csMagic, items []superItem, err error) {
 	// read magic
 	magic = csMagic(binary.BigEndian.Uint32(blob))
 	length := binary.BigEndian.Uint32(blob[4:])
-	count := int(binary.BigEndian.Uint32(blob[8:]))
+	count := int64(binary.BigEndian.Uint32(blob[8:]))
 	if length < 8 || length > uint32(len(blob)) {
 		return 0, nil, errors.New("invalid length in signature blob")
 	}
 	blob = blob[12:]
 	// read indexes
-	if len(blob) < 8*count {
+	if int64(len(blob)) < 8*count {
 		return 0, nil, errShort
 	}
 	indexes, blob := blob[:8*count], blob[8*count:]
-	dataOffset := origLen - len(blob)
-	for i := 0; i < count; i++ {
+	dataOffset := int64(origLen - len(blob))
+	for i := int64(0); i < count; i++ {
 		itype := binary.BigEndian.Uint32(indexes[8*i:])
-		offset := int(binary.BigEndian.Uint32(indexes[4+8*i:]))
+		offset := int64(binary.BigEndian.Uint32(indexes[4+8*i:]))
+		// offsets are relative to the start of the superblob and must point
+		// past the index table
 		offset -= dataOffset
-		if offset > len(blob)-8 {
+		if offset < 0 || offset > int64(len(blob))-8 {
 			return 0, nil, errShort
 		}
-		length := int(binary.BigEndian.Uint32(blob[offset+4:]))
-		if offset+length > len(blob) {
+		// every item starts with its own magic and length
+		length := int64(binary.BigEndian.Uint32(blob[offset+4:]))
+		if length < 8 {
+			return 0, nil, errors.New("invalid item length in signature blob")
+		} else if offset+length > int64(len(blob)) {
 			return 0, nil, errShort
 		}
 		items = append(items, superItem{
